@@ -88,6 +88,11 @@ Definition py_for_items (d acc : val) (f : val -> val -> val -> val) : val :=
   | VD l => fold_left (fun a kv => f a (VA (AInt (fst kv))) (VA (snd kv))) l acc
   | _ => acc
   end.
+(* k in d; pairs.append((k, v)) on a sequence of pairs (kept as an association list) *)
+Definition py_contains (d k : val) : bool :=
+  match d, k with VD l, VA (AInt z) => dict_has z l | _, _ => false end.
+Definition py_append_pair (l k v : val) : val :=
+  match l, k, v with VD d, VA (AInt z), VA a => VD (d ++ [(z, a)]) | _, _, _ => l end.
 (* ContextualOverride.cascade *)
 Definition py_attr_cascade (v : val) : val :=
   match v with VA (AOv _ c _) => VA (ABool c) | _ => VA (ABool false) end.
